@@ -82,8 +82,8 @@ PROPS = {
                      "ECDHE shared secret, received plaintext), raw and as hex with separators removed; non-trivial = the run executed library code "
                      "that handles secrets (every run does); distinct = distinct interleaving / fault / operation-sequence ids"),
     "C06": dict(level="exploration", design="4.5", memclass="only", cell_keys=["proto", "victim", "rec"],
-                parts=[("byz", "asan", 9, 32, []), ("mitm-hs", "asan", 3, 24, []), ("mitm-data", "asan", 2, 24, []), ("auth", "asan", 1, 12, []), ("http", "asan", 1, 200, []),
-                       ("byz", "msan", 3, 16, [], "thorough"), ("mitm-hs", "msan", 1, 24, [], "thorough"), ("entropy", "msan", 1, 20, [], "thorough")],
+                parts=[("byz", "asan", 8, 32, []), ("mitm-hs", "asan", 3, 24, []), ("mitm-data", "asan", 2, 24, []), ("auth", "asan", 1, 12, []), ("http", "asan", 1, 200, []), ("byz", "msan", 2, 16, []),
+                       ("mitm-hs", "msan", 1, 24, [], "thorough"), ("mitm-data", "msan", 1, 24, [], "thorough"), ("entropy", "msan", 1, 20, [], "thorough")],
                 quick_s=55, thorough_s=1200, quick_max=200000, thorough_max=4000000,
                 rule="scope: every byte stream a TLS/TLCP/TLS 1.3 client or server receives from its peer. One run = a real victim endpoint "
                      "and its real peer with the interposer acting as byzantine peer: 1..3 handshake records of one direction rewritten by seeded "
@@ -91,7 +91,7 @@ PROPS = {
                      "cipher list, EC point variants, certificate list re-framed with one certificate's DER tree mutated: lengths "
                      "0/+-1/huge/indefinite/non-minimal, duplicated/dropped/retagged TLVs, OIDs of 1..45 arcs, oversized lists of real certificates); "
                      "TLS 1.3 protected messages are unprotected with the sender's keys, rewritten and re-protected; plus the mitm-hs, mitm-data and "
-                     "auth scenarios, and http_get against a simulated server returning generated responses (status/header/Content-Length variants, body shorter or longer than announced, early EOF, arbitrary segmentation, caller buffers of 0..70000 bytes with guard zones). All under ASan + UBSan(bounds, pointer-overflow, null, object-size); oracle = no sanitizer report, no abort, no "
+                     "auth scenarios (a share of byz also under MemorySanitizer: use of uninitialised memory), and http_get against a simulated server returning generated responses (status/header/Content-Length variants, body shorter or longer than announced, early EOF, arbitrary segmentation, caller buffers of 0..70000 bytes with guard zones). All under ASan + UBSan(bounds, pointer-overflow, null, object-size); oracle = no sanitizer report, no abort, no "
                      "hang (CPU watchdog, runaway-output trip), TLS_CONNECT state integrity, lengths within capacity. non-trivial = a mutation/fault "
                      "really reached the victim; distinct = distinct (protocol, victim, record, mutation seed) ids"),
     "C20": dict(level="exploration", design="4.8",
@@ -107,7 +107,7 @@ PROPS = {
                      "non-trivial = at least one preemption inside library code; distinct = distinct interleaving ids"),
 }
 
-ALL_VARIANTS = ["plain", "asan", "asan-if", "tsan-if"]      # msan is built on demand by the thorough tier of C06
+ALL_VARIANTS = ["plain", "asan", "asan-if", "tsan-if", "msan"]
 MEMCLASSES = ("hang:", "memerr:", "crash:", "state_corrupt", "no_termination")
 
 KV = re.compile(r'(\w+)=("([^"]*)"|\S+)')
@@ -147,7 +147,7 @@ def classify_sanlog(lp, pid):
         except OSError:
             pass
         return f"race:{loc.group(1) if loc else 'heap-or-stack'}@{func}", txt[:3000]
-    m = re.search(r"ERROR: (?:Address|Memory|Thread|Leak)Sanitizer: ([\w-]+)", txt)
+    m = re.search(r"(?:ERROR|WARNING): (?:Address|Memory|Thread|Leak)Sanitizer: ([\w-]+)", txt)
     if m:
         kind = m.group(1)
     else:
@@ -253,8 +253,13 @@ class Worker(threading.Thread):
 
 def gen_plan(variant, scn, seed, idx, tier):
     exe = os.path.join(VERIF, "build", variant, "gmsim")
-    r = subprocess.run([exe, "gen", scn, "--seed", str(seed), "--index", str(idx), "--tier", "1" if tier == "thorough" else "0"],
-                       stdout=subprocess.PIPE, text=True, cwd=VERIF)
+    cmd = [exe, "gen", scn, "--seed", str(seed), "--index", str(idx), "--tier", "1" if tier == "thorough" else "0"]
+    r = subprocess.run(cmd, stdout=subprocess.PIPE, stderr=subprocess.DEVNULL, text=True, cwd=VERIF)
+    if r.returncode != 0 or "end" not in r.stdout:
+        # generating the plan executes the fault-free twin; if that itself crashes, fall back to the
+        # fault-free plan, whose replay runs (and crashes in) the twin
+        env = dict(os.environ, GMSIM_GEN_NOTWIN="1")
+        r = subprocess.run(cmd, stdout=subprocess.PIPE, stderr=subprocess.DEVNULL, text=True, cwd=VERIF, env=env)
     return r.stdout
 
 
